@@ -1,7 +1,7 @@
 SPEC_PART = dict(
     props_file="C18_cpc",
     legs=[dict(family="cpc", focus="size", oracles=["layout_ok"], profiles=["debug", "release"], n_quick=None, n_thorough=None,
-               mask=[0, 1, 2, 3, 4, 5, 6, 7, 8, 18, 32])],
+               mask=[0, 1, 2, 3, 4, 5, 6, 7, 8, 18, 32], panic_is_violation=True)],
     trusted=["cpc: the bound on the surprising-value stream (safe_length_for_compressed_pair_buf) and the empirical "
              "max_serialized_bytes percentile have no theorem; the latter is a measured test, not an obligation"],
     assumptions=[],
